@@ -103,16 +103,25 @@ def parse_given(s, given):
     return sorted(bag)
 
 
-def run_est(ctx, n, degree, io, bias, kind, rng, ef=None):
+def _np(rng, degree, io, bias):
+    """The same configuration as numpy scalars (what a parameter grid built with numpy hands over)."""
+    r = rng.random()
+    if r < 0.3:
+        return numpy.int64(degree), numpy.bool_(io), numpy.bool_(bias)
+    return degree, io, bias
+
+
+def run_est(ctx, n, degree, io, bias, kind, rng, ef=None, keep_params=False):
     """One block on estimator `ef` (a fresh one if None): set_params, fit, transform, names."""
     from mlinsights.mlmodel import ExtendedFeatures
     skb, pf = sk_bags(n, degree, io, bias)
     rows = [PRIMES[:n]] + [[rng.randint(-3, 4) for _ in range(n)] for _ in range(3)]
     X = numpy.array(rows, dtype=numpy.float64)
+    pd_, pio, pb = _np(rng, degree, io, bias)
     if ef is None:
-        ef = ExtendedFeatures(kind=kind, poly_degree=degree, poly_interaction_only=io, poly_include_bias=bias)
-    else:
-        ef.set_params(kind=kind, poly_degree=degree, poly_interaction_only=io, poly_include_bias=bias)
+        ef = ExtendedFeatures(kind=kind, poly_degree=pd_, poly_interaction_only=pio, poly_include_bias=pb)
+    elif not keep_params:       # keep_params: the configuration of the previous block is what the user asked for, untouched
+        ef.set_params(kind=kind, poly_degree=pd_, poly_interaction_only=pio, poly_include_bias=pb)
     out = ef.fit(X).transform(X)
     ref = pf.transform(X)
     cols = [factor(v, n) for v in out[0]]
@@ -135,11 +144,17 @@ def run_history(ctx, rng, length):
     ef = ExtendedFeatures()
     ev = []
     n = rng.randint(1, 4)
+    cfg = None
     for _ in range(length):
+        if cfg is not None and rng.random() < 0.35:
+            # the same instance, the same configuration, fitted again on a table of another width
+            n = rng.choice([w for w in (1, 2, 3, 4, 5) if w != n])
+            ev.append(run_est(ctx, n, cfg[0], cfg[1], cfg[2], cfg[3], rng, ef=ef, keep_params=True))
+            continue
         if rng.random() < 0.4:
             n = rng.randint(1, 4)
-        ev.append(run_est(ctx, n, rng.randint(1, 4), rng.random() < 0.5, rng.random() < 0.5,
-                          rng.choice(["poly", "poly-slow"]), rng, ef=ef))
+        cfg = (rng.randint(1, 4), rng.random() < 0.5, rng.random() < 0.5, rng.choice(["poly", "poly-slow"]))
+        ev.append(run_est(ctx, n, cfg[0], cfg[1], cfg[2], cfg[3], rng, ef=ef))
     return ev
 
 
